@@ -322,8 +322,6 @@ package core
 //@   property C10,C01
 //@   attr trusted
 //@   requires core != nil && macrosOK(core)
-//@   requires childrenOK()
-//@   requires dirsOK(list)
 //@   requires[C10,C01,@paste-depth-bounded] pasteDepthOK(core)
 //@   modifies anything
 //@   ghost core.gListCtx := core.currentContextDirective
@@ -338,7 +336,7 @@ package core
 //@ func (*JApiCore).processDirective(core, d)
 //@   property C10,C11
 //@   attr assumesafe
-//@   requires core != nil && macrosOK(core) && childrenOK() && directive.dirOK(d) && pasteDepthOK(core) && dirsOK(d.Children)
+//@   requires core != nil && macrosOK(core) && childrenOK() && directive.dirOK(d) && pasteDepthOK(core)
 //@   modifies anything
 //@   ensures[C10,C11,@context-after-implicit-subtree] imp(result == nil && old(d.type_) != directive.Paste && !d.HasExplicitContext && core.gWalks > old(core.gWalks),
 //@       core.currentContextDirective == core.gListCtx)
